@@ -7,6 +7,7 @@ import (
 	"time"
 
 	"github.com/bmeg/grip/config"
+	"github.com/bmeg/grip/gdbi"
 	"github.com/bmeg/grip/gripper"
 	"github.com/bmeg/grip/gripql"
 	"github.com/bmeg/grip/log"
@@ -60,7 +61,10 @@ func (server *GripServer) buildSchemas(ctx context.Context) {
 				if isSchema(name) {
 					continue
 				}
-				if _, ok := server.schemas[name]; ok {
+				server.stateLock.RLock()
+				_, ok := server.schemas[name]
+				server.stateLock.RUnlock()
+				if ok {
 					log.WithFields(log.Fields{"graph": name}).Debug("skipping build; cached schema found")
 					continue
 				}
@@ -72,7 +76,9 @@ func (server *GripServer) buildSchemas(ctx context.Context) {
 					if err != nil {
 						log.WithFields(log.Fields{"graph": name, "error": err}).Error("failed to store graph schema")
 					}
+					server.stateLock.Lock()
 					server.schemas[name] = schema
+					server.stateLock.Unlock()
 				} else {
 					log.WithFields(log.Fields{"graph": name, "error": err}).Error("failed to build graph schema")
 				}
@@ -103,11 +109,19 @@ func (server *GripServer) cacheSchemas(ctx context.Context) {
 }
 
 func (server *GripServer) updateGraphMap() {
+	server.updateLock.Lock()
+	defer server.updateLock.Unlock()
 	o := map[string]string{}
 	for k, v := range server.conf.Graphs {
 		o[k] = v
 	}
+	server.stateLock.RLock()
+	drivers := make(map[string]gdbi.GraphDB, len(server.dbs))
 	for n, dbs := range server.dbs {
+		drivers[n] = dbs
+	}
+	server.stateLock.RUnlock()
+	for n, dbs := range drivers {
 		for _, g := range dbs.ListGraphs() {
 			o[g] = n
 			if strings.HasSuffix(g, "__mapping__") {
@@ -119,7 +133,9 @@ func (server *GripServer) updateGraphMap() {
 					gdb, err := StartDriver(config.DriverConfig{Gripper: &gripper.Config{Graph: graphName, Mapping: mapping}}, server.sources)
 					if err == nil {
 						driverName := fmt.Sprintf("%s__driver__", graphName)
+						server.stateLock.Lock()
 						server.dbs[driverName] = gdb
+						server.stateLock.Unlock()
 						o[graphName] = driverName
 					} else {
 						log.Errorf("Failed to start gripper: %s", graphName)
@@ -130,7 +146,9 @@ func (server *GripServer) updateGraphMap() {
 			}
 		}
 	}
+	server.stateLock.Lock()
 	server.graphMap = o
+	server.stateLock.Unlock()
 }
 
 func (server *GripServer) addFullGraph(ctx context.Context, graphName string, schema *gripql.Graph) error {
